@@ -10,6 +10,12 @@ CHECKS = {
     design_ref="DESIGN.md §5 C08",
     note="Trusted: TLC, the transcription of RV32IM into Words.tla/ISA.tla (Words cross-checked against Python bignum arithmetic), harness projection code. csrw-family operand order relaxed to manual-or-RARS.",
     technique="TLA+ reference semantics (Words/ISA) + TLC-generated cases replayed into the real parser + TLC trace validation of recorded results"),
+ "C17": dict(
+    category="model_checking",
+    text="TLC enumerates Gen_Lit exhaustively (24 boundary magnitudes held as 16-bit limbs so that 2^32 and 2^33 exist, x notation x sign x case x leading zero x 6 operand contexts); the driver adds a malformed-spelling table, character literals and seeded random 34-bit values. Each spelling is parsed by the real parser and TLC validates the recorded imm / data value / csr number (or the parse error and its location) against Text!Denote. Finite boundary family exhaustive, remainder sampled.",
+    design_ref="DESIGN.md §5 C17",
+    note="Trusted: TLC, Text!Denote (cross-checked per event against the generator's own magnitude), the character-literal table and Python spelling of random values. Weakest reading of 'fits in 32 bits' (see Trace_Lit header).",
+    technique="TLA+ literal denotation (Text!Denote) + TLC-generated spellings replayed into the real parser + TLC trace validation"),
 }
 PENDING = "check not built yet in this round (planned, see DESIGN.md §5); not claimed until its check is green on the unchanged tree"
 m = {
